@@ -1,17 +1,20 @@
+// Translator fixtures for C19 (the directory is called hertz because that framework's table row accepts both ways of
+// invoking the next handler and has Abort-style stop calls)
+//
 // Translator fixtures for C19 (parsed by go/cmd/extract19, never compiled): each function is one shape the
 // extractor must either translate exactly or reject (`unknown`).  `Good*` must conform in all six scenarios,
 // `Bad*` must not.  Expected IR: ../../../expected.ir
-package fx
+package hertz
 
 import (
-	"context"
-
 	sentinel "github.com/alibaba/sentinel-golang/api"
 )
 
 type Ctx interface {
 	Next()
-	Abort(int)
+	Abort()
+	AbortWithStatus(int)
+	Status(int)
 }
 type Handler func(c Ctx) error
 type options struct {
@@ -41,7 +44,7 @@ func GoodVoid() func(c Ctx) {
 	return func(c Ctx) {
 		entry, err := sentinel.Entry("r")
 		if err != nil {
-			c.Abort(429)
+			c.AbortWithStatus(429)
 			return
 		}
 		defer entry.Exit()
@@ -68,7 +71,7 @@ func GoodElse() func(c Ctx) {
 	return func(c Ctx) {
 		entry, err := sentinel.Entry("r")
 		if err != nil {
-			c.Abort(429)
+			c.AbortWithStatus(429)
 			return
 		} else {
 			defer entry.Exit()
@@ -77,32 +80,11 @@ func GoodElse() func(c Ctx) {
 	}
 }
 
-type wrapped interface {
-	Call(ctx context.Context) error
-}
-type wrapper struct {
-	wrapped
-	n int
-}
-
-func (w *wrapper) Call(ctx context.Context) error {
-	entry, blockErr := sentinel.Entry("r")
-	if blockErr != nil {
-		return blockErr
-	}
-	defer entry.Exit()
-	err := w.wrapped.Call(ctx)
-	if err != nil {
-		sentinel.TraceError(entry, err)
-	}
-	return err
-}
-
 func BadInverted() func(c Ctx) {
 	return func(c Ctx) {
 		entry, err := sentinel.Entry("r")
 		if err == nil {
-			c.Abort(429)
+			c.AbortWithStatus(429)
 			return
 		}
 		defer entry.Exit()
@@ -114,7 +96,7 @@ func BadGoroutine() func(c Ctx) {
 	return func(c Ctx) {
 		entry, err := sentinel.Entry("r")
 		if err != nil {
-			c.Abort(429)
+			c.AbortWithStatus(429)
 			return
 		}
 		defer entry.Exit()
@@ -126,7 +108,7 @@ func BadClosureDefer() func(c Ctx) {
 	return func(c Ctx) {
 		entry, err := sentinel.Entry("r")
 		if err != nil {
-			c.Abort(429)
+			c.AbortWithStatus(429)
 			return
 		}
 		defer func() { entry.Exit() }()
@@ -138,7 +120,7 @@ func BadNoExit() func(c Ctx) {
 	return func(c Ctx) {
 		_, err := sentinel.Entry("r")
 		if err != nil {
-			c.Abort(429)
+			c.AbortWithStatus(429)
 			return
 		}
 		c.Next()
@@ -153,7 +135,7 @@ func BadEarlyNext(o *options) func(c Ctx) {
 		}
 		entry, err := sentinel.Entry("r")
 		if err != nil {
-			c.Abort(429)
+			c.AbortWithStatus(429)
 			return
 		}
 		defer entry.Exit()
@@ -165,7 +147,7 @@ func BadExitTwice() func(c Ctx) {
 	return func(c Ctx) {
 		entry, err := sentinel.Entry("r")
 		if err != nil {
-			c.Abort(429)
+			c.AbortWithStatus(429)
 			return
 		}
 		defer entry.Exit()
@@ -178,7 +160,7 @@ func BadLoop(next Handler) func(c Ctx) {
 	return func(c Ctx) {
 		entry, err := sentinel.Entry("r")
 		if err != nil {
-			c.Abort(429)
+			c.AbortWithStatus(429)
 			return
 		}
 		defer entry.Exit()
@@ -192,7 +174,7 @@ func BadAlias() func(c Ctx) {
 	return func(c Ctx) {
 		entry, err := sentinel.Entry("r")
 		if err != nil {
-			c.Abort(429)
+			c.AbortWithStatus(429)
 			return
 		}
 		e2 := entry
@@ -220,7 +202,7 @@ func BadLocalFuncVar(next Handler) func(c Ctx) {
 	return func(c Ctx) {
 		entry, err := sentinel.Entry("r")
 		if err != nil {
-			c.Abort(429)
+			c.AbortWithStatus(429)
 			return
 		}
 		defer entry.Exit()
@@ -248,7 +230,7 @@ func BadDroppedError(next Handler) func(c Ctx) {
 	return func(c Ctx) {
 		entry, err := sentinel.Entry("r")
 		if err != nil {
-			c.Abort(429)
+			c.AbortWithStatus(429)
 			return
 		}
 		defer entry.Exit()
@@ -275,11 +257,67 @@ func BadSwitch(mode int) func(c Ctx) {
 	return func(c Ctx) {
 		entry, err := sentinel.Entry("r")
 		if err != nil {
-			c.Abort(429)
+			c.AbortWithStatus(429)
 			return
 		}
 		switch mode {
 		case 1:
+			return
+		}
+		defer entry.Exit()
+		c.Next()
+	}
+}
+
+// the chain is not stopped: in a Next-loop framework the handler still runs
+func BadReturnNoStop() func(c Ctx) {
+	return func(c Ctx) {
+		entry, err := sentinel.Entry("r")
+		if err != nil {
+			c.Status(429)
+			return
+		}
+		defer entry.Exit()
+		c.Next()
+	}
+}
+
+func GoodStatusThenAbort() func(c Ctx) {
+	return func(c Ctx) {
+		entry, err := sentinel.Entry("r")
+		if err != nil {
+			c.Status(429)
+			c.Abort()
+			return
+		}
+		defer entry.Exit()
+		c.Next()
+	}
+}
+
+// stops the chain but produces no rejection
+func BadAbortOnly() func(c Ctx) {
+	return func(c Ctx) {
+		entry, err := sentinel.Entry("r")
+		if err != nil {
+			c.Abort()
+			return
+		}
+		defer entry.Exit()
+		c.Next()
+	}
+}
+
+// the configured fallback stops, the default rejection does not
+func BadDefaultNoStop(o *options) func(c Ctx) {
+	return func(c Ctx) {
+		entry, err := sentinel.Entry("r")
+		if err != nil {
+			if o.fallback != nil {
+				_ = o.fallback(c)
+			} else {
+				c.Status(429)
+			}
 			return
 		}
 		defer entry.Exit()
